@@ -111,10 +111,10 @@ type Reg struct {
 	// SliceErr: the error result is declared with a slice-kind type that implements error
 	// (validation errors: type FieldErrors []error); nil means success
 	SliceErr bool
-	UseIn  bool
+	UseIn    bool
 	// PtrIn: the parameter object is taken by pointer (func(p *Params)); the harness keeps the
 	// pointer, as a service that stores its parameter object would (synthesised constructors only)
-	PtrIn bool
+	PtrIn  bool
 	Deps   []DepSpec
 	Name   string
 	Group  string
@@ -289,6 +289,10 @@ type Config struct {
 	// context that the caller cancels once Build has returned; 2 BuildWithOptions
 	// with a (generous) build timeout. The provider is the same in all three.
 	BuildMode int
+	// Scribble: user code treats the slices it is given as its own - a constructor reorders the
+	// group slices it was injected with (after the harness has recorded them), the caller of
+	// GetGroup reorders the result. Nobody else may ever see that.
+	Scribble bool
 }
 
 // Ghost is a registration that is removed again before Build (see Config.Ghosts).
@@ -314,6 +318,9 @@ func (c *Config) String() string {
 	}
 	if c.BuildMode != 0 {
 		parts = append(parts, []string{"", "[BuildWithContext, context cancelled after Build]", "[BuildWithOptions, build timeout]"}[c.BuildMode])
+	}
+	if c.Scribble {
+		parts = append(parts, "[constructors and callers reorder the group slices they get]")
 	}
 	if c.PreBuild > 0 {
 		return fmt.Sprintf("[built once after the first %d] ", c.PreBuild) + strings.Join(parts, " ; ")
